@@ -9,6 +9,7 @@ import (
 	"errors"
 	"fmt"
 	"io"
+	"os"
 	"strings"
 	"sync"
 
@@ -193,8 +194,8 @@ const (
 var c34ConsumerName = []string{"Read", "ReadLine", "Scanner", "PeekLine/16", "PeekLine/4096", "PeekLine/65536"}
 var c34PeekSize = map[int]int{c34Peek16: 16, c34Peek4096: 4096, c34Peek65536: 65536}
 
-// c34Consume reads events until end of stream or maxEv events. firstBuf > 0
-// makes the Read consumer use a buffer of that size for the first packet only.
+// c34Consume reads events until end of stream or maxEv events. firstBuf >= 0
+// makes the Read consumer use a buffer of that size for the first call only.
 func c34Consume(consumer int, r io.Reader, want []c34Ev, maxEv, firstBuf int) []c34Ev {
 	var out []c34Ev
 	switch consumer {
@@ -204,7 +205,7 @@ func c34Consume(consumer int, r io.Reader, want []c34Ev, maxEv, firstBuf int) []
 		buf := *bp
 		for len(out) < maxEv {
 			b := buf
-			if firstBuf > 0 && len(out) == 0 {
+			if firstBuf >= 0 && len(out) == 0 {
 				b = buf[:firstBuf]
 			}
 			l, err := pktline.Read(r, b)
@@ -219,12 +220,28 @@ func c34Consume(consumer int, r io.Reader, want []c34Ev, maxEv, firstBuf int) []
 			}
 		}
 	case c34ReadLine:
+		// ReadLine returns "a newly allocated buffer": every returned payload is
+		// kept and must still hold its packet after all later reads
+		var kept [][]byte
 		for len(out) < maxEv {
 			l, p, err := pktline.ReadLine(r)
 			e := c34Classify(l, p, err, c34Hint(want, len(out)))
 			out = append(out, e)
+			kept = append(kept, p)
 			if e.kind == '$' {
 				break
+			}
+		}
+		for i, p := range kept {
+			switch out[i].kind {
+			case 'D':
+				if string(p) != out[i].s {
+					out[i] = c34Ev{'!', "payload returned by ReadLine was overwritten by a later read"}
+				}
+			case 'E':
+				if !strings.HasPrefix(out[i].s, string(p)+"\x00") {
+					out[i] = c34Ev{'!', "ERR payload returned by ReadLine was overwritten by a later read"}
+				}
 			}
 		}
 	case c34Scanner:
@@ -241,6 +258,9 @@ func c34Consume(consumer int, r io.Reader, want []c34Ev, maxEv, firstBuf int) []
 				e = c34Classify(s.Len(), s.Bytes(), nil, c34Hint(want, len(out)))
 				if e.kind == 'D' && len(e.s) <= 64 && s.Text() != e.s {
 					e = c34Ev{'!', "Text() differs from Bytes()"}
+				}
+				if (e.kind == 'F' || e.kind == 'L' || e.kind == 'R') && (s.Bytes() != nil || s.Text() != "") {
+					e = c34Ev{'!', "Bytes() is not nil for a special packet"}
 				}
 			} else if err := s.Err(); err == nil {
 				e = c34Ev{'$', ""}
@@ -373,7 +393,7 @@ func c34DiffKind(d string) string {
 	return strings.Fields(d)[0]
 }
 
-var c34PartRank = map[string]int{"seq": 0, "content": 1, "malformed": 2, "smallbuf": 3, "length": 4, "bigsplit": 5}
+var c34PartRank = map[string]int{"seq": 0, "content": 1, "malformed": 2, "smallbuf": 3, "length": 4, "bigsplit": 5, "writers": 6, "errline": 7, "trace": 8, "zeroreads": 9}
 
 type c34Env struct {
 	c     *fw.Ctx
@@ -449,6 +469,21 @@ func runC34(c *fw.Ctx) {
 		lastT, lastN = c.Elapsed(), c.NEvals()
 		c.Extra("parts", partStats)
 	}
+	only := os.Getenv("VERIF_C34_PARTS") // development aid: run the named parts only
+	if only != "" {
+		c.Incomplete("VERIF_C34_PARTS set: only parts " + only + " run")
+	}
+	on := func(part string) bool {
+		if only == "" {
+			return true
+		}
+		for _, p := range strings.Split(only, ",") {
+			if p == part {
+				return true
+			}
+		}
+		return false
+	}
 	allCons := []int{c34Read, c34ReadLine, c34Scanner, c34Peek16, c34Peek4096, c34Peek65536}
 	smallSizes := []int{1, 2, 3, 4, 5, 6, 7, 8}
 	bigSizes := []int{4095, 4096, 65519, 65520, 65521}
@@ -465,6 +500,9 @@ func runC34(c *fw.Ctx) {
 	c.Bound("seq_max_len", seqLen)
 	c.Bound("seq_alphabet", c34SeqString(alpha))
 	seqs := fw.Seqs(len(alpha), seqLen)
+	if !on("seq") {
+		seqs = nil
+	}
 	c.ParDo(len(seqs), 0, func(i int) {
 		var seq []c34Pkt
 		for _, a := range seqs[i] {
@@ -480,7 +518,7 @@ func runC34(c *fw.Ctx) {
 			c.Sample(map[string]any{"part": "seq", "sequence": c34SeqString(seq), "stream": fw.Q(string(stream))})
 		}
 		env.run("seq", i, c34SeqString(seq), c34Shape(seq), stream, c34Starts(ends), want,
-			dChunkingsSmall(len(stream), true, smallSizes, true), allCons, 0)
+			dChunkingsSmall(len(stream), true, smallSizes, true), allCons, -1)
 	})
 
 	mark("seq")
@@ -490,6 +528,9 @@ func runC34(c *fw.Ctx) {
 	c.Bound("content_alphabet", sigma)
 	c.Bound("content_max_len", contLen)
 	nCont := fw.CountStrings(len(sigma), contLen)
+	if !on("content") {
+		nCont = 0
+	}
 	c.ParDo(nCont, 0, func(i int) {
 		p := fw.StringAt(sigma, i)
 		for v, seq := range [][]c34Pkt{
@@ -503,7 +544,7 @@ func runC34(c *fw.Ctx) {
 				want = append(want, c34Expect(q))
 			}
 			env.run("content", i*2+v, c34SeqString(seq), c34Shape(seq), stream, c34Starts(ends), want,
-				dChunkingsSmall(len(stream), true, smallSizes, true), allCons, 0)
+				dChunkingsSmall(len(stream), true, smallSizes, true), allCons, -1)
 		}
 	})
 
@@ -541,6 +582,9 @@ func runC34(c *fw.Ctx) {
 	suffix := []c34Pkt{{'D', []byte("ab")}, {'F', nil}, {'D', []byte("c\n")}}
 	sufStream, _, err := c34Encode(suffix)
 	c.Must(err, "encode")
+	if !on("malformed") {
+		hdrList = nil
+	}
 	c.ParDo(len(hdrList), 0, func(i int) {
 		h := hdrList[i]
 		v, hexOK := 0, true
@@ -595,30 +639,54 @@ func runC34(c *fw.Ctx) {
 		if i%401 == 7 {
 			c.Sample(map[string]any{"part": "malformed", "header": fw.Q(h), "expected_first_event": first.String()})
 		}
-		env.run("malformed", i, "header "+fw.Q(h)+" then "+c34SeqString(suffix), shape+c34Shape(suffix), stream, starts, want, ks, allCons, 0)
+		env.run("malformed", i, "header "+fw.Q(h)+" then "+c34SeqString(suffix), shape+c34Shape(suffix), stream, starts, want, ks, allCons, -1)
 	})
 
 	mark("malformed")
-	// ---- part smallbuf: Read with a buffer too small for the packet skips it and stays in sync
+	// ---- part smallbuf: the caller's buffer for the first Read is too small / exactly
+	// fits / is below the 4 header bytes; the stream must stay in sync
 	sbLens := []int{1, 2, 3, 10, 100, 1000, 8188, 8189, 8193, 65516}
 	c.Bound("smallbuf_payload_lengths", sbLens)
-	type sbCase struct{ L, buf int }
+	c.Bound("smallbuf_first_buffer_sizes", "0..3 (refused, nothing consumed), 4, 5, 6, packet-1 (packet skipped), packet, packet+1 (fits); first packet data of the listed lengths, empty data, flush, delim, response-end")
+	type sbCase struct {
+		first c34Pkt
+		buf   int
+	}
 	var sbCases []sbCase
 	for _, L := range sbLens {
 		seen := map[int]bool{}
-		for _, b := range []int{4, 5, 6, L + 3} {
-			if b < L+4 && !seen[b] {
+		for _, b := range []int{0, 1, 2, 3, 4, 5, 6, L + 3, L + 4, L + 5} {
+			if !seen[b] && b <= pktline.MaxSize {
 				seen[b] = true
-				sbCases = append(sbCases, sbCase{L, b})
+				sbCases = append(sbCases, sbCase{c34Pkt{'D', c34Fill(L, 9)}, b})
 			}
 		}
 	}
+	for _, first := range []c34Pkt{{'D', []byte{}}, {'F', nil}, {'L', nil}, {'R', nil}} {
+		for _, b := range []int{0, 3, 4, 5} {
+			sbCases = append(sbCases, sbCase{first, b})
+		}
+	}
+	if !on("smallbuf") {
+		sbCases = nil
+	}
 	c.ParDo(len(sbCases), 0, func(i int) {
 		sc := sbCases[i]
-		seq := []c34Pkt{{'D', c34Fill(sc.L, 9)}, {'D', []byte("ab")}, {'F', nil}}
+		seq := []c34Pkt{sc.first, {'D', []byte("ab")}, {'F', nil}}
 		stream, ends, err := c34Encode(seq)
 		c.Must(err, "encode")
-		want := []c34Ev{{'U', ""}, c34Expect(seq[1]), c34Expect(seq[2])}
+		var want []c34Ev
+		shape := ""
+		switch {
+		case sc.buf < pktline.LenSize:
+			// refused before anything is read: the packet is still there
+			want, shape = []c34Ev{{'X', ""}, c34Expect(seq[0])}, "X"
+		case sc.first.kind == 'D' && len(sc.first.data)+pktline.LenSize > sc.buf:
+			want, shape = []c34Ev{{'U', ""}}, "U"
+		default:
+			want, shape = []c34Ev{c34Expect(seq[0])}, "fit"
+		}
+		want = append(want, c34Expect(seq[1]), c34Expect(seq[2]))
 		var ks []dChunking
 		if len(stream) <= 1100 {
 			ks = dChunkingsSmall(len(stream), len(stream) <= 40, smallSizes, true)
@@ -631,11 +699,30 @@ func runC34(c *fw.Ctx) {
 				ks = append(ks, dChunking{max: s}, dChunking{max: s, eofData: true})
 			}
 		}
-		env.run("smallbuf", i, fmt.Sprintf("first Read with a %d-byte buffer; %s", sc.buf, c34SeqString(seq)), "U"+c34Shape(seq), stream, c34Starts(ends), want, ks, []int{c34Read}, sc.buf)
+		env.run("smallbuf", i, fmt.Sprintf("first Read with a %d-byte buffer; %s", sc.buf, c34SeqString(seq)), shape+c34Shape(seq), stream, c34Starts(ends), want, ks, []int{c34Read}, sc.buf)
 	})
 	mark("smallbuf")
 	env.fails.flush(c)
-	c34Sideband(c, env, mark, true)
+	if on("writers") {
+		c34Writers(c, env, allCons)
+		mark("writers")
+	}
+	if on("errline") {
+		c34ErrLines(c, env, allCons)
+		mark("errline")
+	}
+	if on("zeroreads") {
+		c34ZeroReads(c, env, alpha, allCons)
+		mark("zeroreads")
+	}
+	if on("trace") {
+		c34Traced(c, env, alpha, allCons)
+		mark("trace")
+	}
+	env.fails.flush(c)
+	if on("sideband-cheap") {
+		c34Sideband(c, env, mark, true)
+	}
 	env.fails.flush(c)
 	// ---- part length: every payload length 0..65516 (position-dependent fill)
 	maxLen := pktline.MaxPayloadSize
@@ -647,7 +734,11 @@ func runC34(c *fw.Ctx) {
 	if _, err := pktline.Write(io.Discard, make([]byte, maxLen+1)); !errors.Is(err, pktline.ErrPayloadTooLong) {
 		c.Fail("pktline Write accepts a payload of 65517 bytes", "Write does not refuse an oversized payload", nil)
 	}
-	c.ParDo(maxLen+1, 0, func(L int) {
+	nLen := maxLen + 1
+	if !on("length") {
+		nLen = 0
+	}
+	c.ParDo(nLen, 0, func(L int) {
 		seq := []c34Pkt{{'D', c34Fill(L, L)}, {'D', []byte("ab")}, {'F', nil}}
 		stream, ends, err := c34Encode(seq)
 		c.Must(err, "encode")
@@ -676,10 +767,10 @@ func runC34(c *fw.Ctx) {
 		}
 		if full {
 			env.run("length", L, c34SeqString(seq), c34Shape(seq), stream, c34Starts(ends), want, ks,
-				[]int{c34Read, c34ReadLine, c34Scanner, c34Peek65536}, 0)
+				[]int{c34Read, c34ReadLine, c34Scanner, c34Peek65536}, -1)
 		} else {
-			env.run("length", L, c34SeqString(seq), c34Shape(seq), stream, c34Starts(ends), want, ks, []int{c34Read, c34Scanner}, 0)
-			env.run("length", L, c34SeqString(seq), c34Shape(seq), stream, c34Starts(ends), want, ks[:2], []int{c34ReadLine, c34Peek65536}, 0)
+			env.run("length", L, c34SeqString(seq), c34Shape(seq), stream, c34Starts(ends), want, ks, []int{c34Read, c34Scanner}, -1)
+			env.run("length", L, c34SeqString(seq), c34Shape(seq), stream, c34Starts(ends), want, ks[:2], []int{c34ReadLine, c34Peek65536}, -1)
 		}
 	})
 
@@ -690,6 +781,9 @@ func runC34(c *fw.Ctx) {
 		bigLens = append(bigLens, 996, 4091, 8188, 32768, 65514, 65515)
 	}
 	c.Bound("every_split_point_for_payload_lengths", bigLens)
+	if !on("bigsplit") {
+		bigLens = nil
+	}
 	for bi, L := range bigLens {
 		seq := []c34Pkt{{'D', c34Fill(L, 3)}, {'D', []byte("ab")}, {'F', nil}}
 		stream, ends, err := c34Encode(seq)
@@ -708,28 +802,37 @@ func runC34(c *fw.Ctx) {
 			if L > 60000 && !c.Thorough() {
 				cons = []int{c34Read, c34Scanner, c34Peek65536} // the PeekLine reader also runs ReadLine
 			}
-			env.run("bigsplit", bi*100000+blk, c34SeqString(seq), c34Shape(seq), stream, c34Starts(ends), want, ks, cons, 0)
+			env.run("bigsplit", bi*100000+blk, c34SeqString(seq), c34Shape(seq), stream, c34Starts(ends), want, ks, cons, -1)
 		})
 	}
 
 	mark("bigsplit")
 	env.fails.flush(c)
 
-	c34Sideband(c, env, mark, false)
+	if on("sideband-big") {
+		c34Sideband(c, env, mark, false)
+	}
 	env.fails.flush(c)
 }
 
 // ---------------------------------------------------------------- sideband
 
+// c34SbWrite is one step of a sideband script: n bytes for channel ch, handed
+// to go-git's Muxer or (raw) framed by hand as ONE packet the way another
+// implementation may packetise it (n = 0: git's keep-alive packet).
 type c34SbWrite struct {
-	ch sideband.Channel
-	n  int
+	ch  sideband.Channel
+	n   int
+	raw bool
 }
 
 func c34SbFill(ch sideband.Channel, n, off int) []byte {
 	pat := "\x01\x02\x03P\n\x00xyz0004"
 	if ch == sideband.ProgressMessage {
 		pat = "\x02\x01r\r\x03%0000q"
+	}
+	if ch == sideband.ErrorMessage {
+		pat = "fatal: %s\x01 0000\nq"
 	}
 	b := make([]byte, n)
 	for i := range b {
@@ -750,7 +853,11 @@ func c34SbScriptString(t sideband.Type, script []c34SbWrite, flush bool) string 
 		sb.WriteString("side-band-64k:")
 	}
 	for _, w := range script {
-		fmt.Fprintf(&sb, " ch%d[%d]", w.ch, w.n)
+		if w.raw {
+			fmt.Fprintf(&sb, " rawpkt-ch%d[%d]", w.ch, w.n)
+		} else {
+			fmt.Fprintf(&sb, " ch%d[%d]", w.ch, w.n)
+		}
 	}
 	if flush {
 		sb.WriteString(" flush")
@@ -793,6 +900,7 @@ func c34Sideband(c *fw.Ctx, env *c34Env, mark func(string), cheap bool) {
 		lite64 = append(plansOf(1<<18, 4096, 65515), c34ReadPlan{7, 65520})
 	}
 	var jobs []sbJob
+	var keep func(sc []c34SbWrite) bool // optional filter on the enumerated scripts
 	mk := func(part string, t sideband.Type, ops []c34SbWrite, minLen, maxLen int, flushes []bool, chunks string, plans []c34ReadPlan, cutPlans bool) {
 		for _, s := range fw.Seqs(len(ops), maxLen) {
 			if len(s) < minLen {
@@ -802,7 +910,10 @@ func c34Sideband(c *fw.Ctx, env *c34Env, mark func(string), cheap bool) {
 			for _, a := range s {
 				script = append(script, ops[a])
 			}
-			isCheap := strings.HasPrefix(part, "sb-small") || part == "sb-1000" || part == "sb-1000x3"
+			if keep != nil && !keep(script) {
+				continue
+			}
+			isCheap := strings.HasPrefix(part, "sb-small") || part == "sb-1000" || part == "sb-1000x3" || part == "sb-foreign" || strings.HasPrefix(part, "sb-error")
 			for _, fl := range flushes {
 				if isCheap == cheap {
 					jobs = append(jobs, sbJob{part, t, script, fl, chunks, plans, cutPlans})
@@ -810,23 +921,55 @@ func c34Sideband(c *fw.Ctx, env *c34Env, mark func(string), cheap bool) {
 			}
 		}
 	}
-	P, G := sideband.PackData, sideband.ProgressMessage
+	P, G, E := sideband.PackData, sideband.ProgressMessage, sideband.ErrorMessage
 	both := []bool{true, false}
-	smallOps := []c34SbWrite{{P, 1}, {P, 2}, {P, 3}, {G, 1}, {G, 2}}
+	hasRaw := func(sc []c34SbWrite) bool {
+		for _, w := range sc {
+			if w.raw {
+				return true
+			}
+		}
+		return false
+	}
+	hasErr := func(sc []c34SbWrite) bool {
+		for _, w := range sc {
+			if w.ch == E {
+				return true
+			}
+		}
+		return false
+	}
+	smallOps := []c34SbWrite{{ch: P, n: 1}, {ch: P, n: 2}, {ch: P, n: 3}, {ch: G, n: 1}, {ch: G, n: 2}}
+	// packets framed by another implementation: empty pack-data packets (git's
+	// keep-alive "0005\x01"), empty progress packets, packets below the maximum
+	foreignOps := []c34SbWrite{{ch: P, n: 0, raw: true}, {ch: G, n: 0, raw: true}, {ch: P, n: 2, raw: true}, {ch: P, n: 1}, {ch: G, n: 1}}
+	// the error channel: everything multiplexed before it is delivered, then a
+	// non-EOF error that carries the message
+	errOps := []c34SbWrite{{ch: P, n: 1}, {ch: P, n: 2}, {ch: G, n: 1}, {ch: E, n: 1}, {ch: E, n: 3}}
 	for _, t := range []sideband.Type{sideband.Sideband, sideband.Sideband64k} {
 		mk("sb-small", t, smallOps, 1, 2, both, "all2e", tinyPlans, true)
 		mk("sb-small3", t, smallOps, 3, 3, both, "all1e", tinyPlans, true)
+		keep = hasRaw
+		mk("sb-foreign", t, foreignOps, 1, 2, both, "all2e", tinyPlans, true)
+		mk("sb-foreign", t, foreignOps, 3, 3, []bool{true}, "all1e", tinyPlans, true)
+		keep = hasErr
+		mk("sb-error", t, errOps, 1, 2, both, "all2e", tinyPlans, true)
+		mk("sb-error", t, errOps, 3, 3, []bool{true}, "all1e", tinyPlans, true)
+		keep = nil
 	}
-	ops1000 := []c34SbWrite{{P, 1}, {P, 2}, {P, 995}, {P, 996}, {G, 1}, {G, 2}, {G, 995}, {G, 996}}
+	keep = hasErr
+	mk("sb-error-1000", sideband.Sideband, []c34SbWrite{{ch: P, n: 996}, {ch: G, n: 996}, {ch: E, n: 1}, {ch: E, n: 995}, {ch: E, n: 996}}, 1, 2, []bool{true}, "near", mediumPlans, false)
+	keep = nil
+	ops1000 := []c34SbWrite{{ch: P, n: 1}, {ch: P, n: 2}, {ch: P, n: 995}, {ch: P, n: 996}, {ch: G, n: 1}, {ch: G, n: 2}, {ch: G, n: 995}, {ch: G, n: 996}}
 	mk("sb-1000-allsplits", sideband.Sideband, ops1000, 1, 2, both, "all1", lite1000, false)
 	mk("sb-1000", sideband.Sideband, ops1000, 1, 2, both, "near", fullPlans, false)
-	mk("sb-1000x3", sideband.Sideband, []c34SbWrite{{P, 1}, {P, 996}, {P, 1991}, {G, 1}, {G, 996}}, 3, 3, both, "near", mediumPlans, false)
-	mk("sb-64k", sideband.Sideband64k, []c34SbWrite{{P, 1}, {P, 65515}, {P, 65516}, {G, 1}, {G, 65515}, {G, 65516}}, 1, 2, both, "near", bigPlans, false)
+	mk("sb-1000x3", sideband.Sideband, []c34SbWrite{{ch: P, n: 1}, {ch: P, n: 996}, {ch: P, n: 1991}, {ch: G, n: 1}, {ch: G, n: 996}}, 3, 3, both, "near", mediumPlans, false)
+	mk("sb-64k", sideband.Sideband64k, []c34SbWrite{{ch: P, n: 1}, {ch: P, n: 65515}, {ch: P, n: 65516}, {ch: G, n: 1}, {ch: G, n: 65515}, {ch: G, n: 65516}}, 1, 2, both, "near", bigPlans, false)
 	if c.Thorough() {
-		mk("sb-64k-allsplits", sideband.Sideband64k, []c34SbWrite{{P, 65515}, {P, 65516}}, 1, 1, both, "all1", lite64, false)
-		mk("sb-64k-allsplits2", sideband.Sideband64k, []c34SbWrite{{P, 1}, {P, 65516}, {G, 3}, {G, 65516}}, 2, 2, []bool{true}, "all1", lite64, false)
+		mk("sb-64k-allsplits", sideband.Sideband64k, []c34SbWrite{{ch: P, n: 65515}, {ch: P, n: 65516}}, 1, 1, both, "all1", lite64, false)
+		mk("sb-64k-allsplits2", sideband.Sideband64k, []c34SbWrite{{ch: P, n: 1}, {ch: P, n: 65516}, {ch: G, n: 3}, {ch: G, n: 65516}}, 2, 2, []bool{true}, "all1", lite64, false)
 	} else {
-		mk("sb-64k-allsplits", sideband.Sideband64k, []c34SbWrite{{P, 65516}}, 1, 1, []bool{true}, "all1", lite64, false)
+		mk("sb-64k-allsplits", sideband.Sideband64k, []c34SbWrite{{ch: P, n: 65516}}, 1, 1, []bool{true}, "all1", lite64, false)
 	}
 	c.Bound(fmt.Sprintf("sideband_jobs_cheap_%v", cheap), len(jobs))
 	c.Bound("sideband_read_sizes", "small packets: 1..8, 994..996, 1000, 4096, 65515, 65516, 65519..65521, 256KiB, alternating 1/7 and 3/1000, and for the smallest scripts every (k1), (k1,k2) prefix of read sizes up to the pack length; 64k packets: 1000, 4096, 65515, 65516, 65519..65521, 256KiB (read sizes below 1000 are not combined with 64k packets: Demuxer.doRead re-clones the pending remainder on every Read, i.e. quadratic cost)")
@@ -843,18 +986,47 @@ func c34Sideband(c *fw.Ctx, env *c34Env, mark func(string), cheap bool) {
 		}
 		var buf bytes.Buffer
 		m := sideband.NewMuxer(j.t, &buf)
-		var wantPack, wantProg []byte
+		var wantPack, wantProg, wantErr []byte
 		var werr error
+		errSeen := false
+		nErr := 0
 		for _, w := range j.script {
 			var data []byte
-			if w.ch == P {
+			wn := -1
+			switch w.ch {
+			case P:
 				data = c34SbFill(P, w.n, len(wantPack))
-				wantPack = append(wantPack, data...)
-				_, werr = m.Write(data)
-			} else {
+				if !errSeen {
+					wantPack = append(wantPack, data...)
+				}
+			case G:
 				data = c34SbFill(G, w.n, len(wantProg))
-				wantProg = append(wantProg, data...)
-				_, werr = m.WriteChannel(G, data)
+				if !errSeen {
+					wantProg = append(wantProg, data...)
+				}
+			default:
+				data = c34SbFill(E, w.n, nErr)
+				nErr += w.n
+				if !errSeen {
+					// the message of the first error packet (a long message is split by the Muxer)
+					wantErr = data
+					if mx := map[sideband.Type]int{sideband.Sideband: sideband.MaxPackedSize, sideband.Sideband64k: sideband.MaxPackedSize64k}[j.t] - 5; len(wantErr) > mx {
+						wantErr = wantErr[:mx]
+					}
+				}
+				errSeen = true
+			}
+			switch {
+			case w.raw:
+				fmt.Fprintf(&buf, "%04x%c", len(data)+5, byte(w.ch))
+				buf.Write(data)
+			case w.ch == P:
+				wn, werr = m.Write(data)
+			default:
+				wn, werr = m.WriteChannel(w.ch, data)
+			}
+			if werr == nil && !w.raw && wn != len(data) {
+				werr = fmt.Errorf("returns count %d for %d bytes", wn, len(data))
 			}
 			if werr != nil {
 				break
@@ -939,6 +1111,9 @@ func c34Sideband(c *fw.Ctx, env *c34Env, mark func(string), cheap bool) {
 			if w.n > 990 {
 				shape += "L"
 			}
+			if w.raw {
+				shape += fmt.Sprintf("r%d", min(w.n, 1))
+			}
 		}
 		const blk = 16
 		c.ParDo((len(ks)+blk-1)/blk, 0, func(b int) {
@@ -958,7 +1133,9 @@ func c34Sideband(c *fw.Ctx, env *c34Env, mark func(string), cheap bool) {
 						env.cls.add(c, j.part+"|"+shape+"|"+cc+fmt.Sprintf("|plan%d|%v", plan[0], withProg))
 						bad := ""
 						switch {
-						case rerr != io.EOF:
+						case errSeen && (rerr == nil || rerr == io.EOF || !strings.Contains(rerr.Error(), string(wantErr))):
+							bad = fmt.Sprintf("ends with %v instead of an error carrying the error-channel message %s", rerr, dShort(wantErr))
+						case !errSeen && rerr != io.EOF:
 							bad = fmt.Sprintf("ends with %v instead of io.EOF", rerr)
 						case !bytes.Equal(gotPack, wantPack):
 							bad = fmt.Sprintf("pack bytes differ (got %d bytes %s, want %d bytes %s)", len(gotPack), dShort(gotPack), len(wantPack), dShort(wantPack))
@@ -966,6 +1143,8 @@ func c34Sideband(c *fw.Ctx, env *c34Env, mark func(string), cheap bool) {
 							bad = fmt.Sprintf("progress bytes differ (got %d bytes %s, want %d bytes %s)", len(gotProg), dShort(gotProg), len(wantProg), dShort(wantProg))
 						}
 						if bad == "" {
+							// after the expected end (io.EOF, or the error that follows every
+							// pack byte written before it) nothing can be pending
 							reuse()
 						} else {
 							kind := strings.Fields(bad)[0]
